@@ -33,7 +33,7 @@ Definition PNone : pv := PV VNull.
 Definition PInt (z : Z) : pv := PV (VInt z).
 Definition PBool (b : bool) : pv := PV (VBool b).
 
-Inductive cmpop := CIs | CIsNot | CEq | CNe | CLt | CLe | CGt | CGe.
+Inductive cmpop := CIs | CIsNot | CEq | CNe | CLt | CLe | CGt | CGe | CIn | CNotIn.
 Inductive bop := OAdd | OSub.
 
 Inductive target :=
@@ -46,13 +46,16 @@ Inductive expr :=
 | XAttr (e : expr) (a : string)
 | XCall (f : expr) (args : list expr) (star : option expr)     (* f(a1, .., an, *star) *)
 | XLen (e : expr)
-| XPop (t : target) (i : expr)                                 (* t.pop(i) *)
+| XMethod (t : target) (m : string) (args : list expr)         (* t.m(args) on a local / self attribute: may mutate t *)
+| XPrim (name : string) (args : list expr)                     (* a library function, by qualified name *)
+| XTuple (es : list expr)
+| XIndex (e i : expr)                                          (* e[i] *)
 | XCompare (e : expr) (rest : list (cmpop * expr))             (* a op1 b op2 c ... *)
 | XNot (e : expr)
 | XBin (op : bop) (a b : expr)
 | XIfExp (c a b : expr)
 | XSlice (e : expr) (lo hi : option expr)                      (* e[lo:hi] *)
-| XListComp (elt : expr) (x : string) (iter : expr)            (* [elt for x in iter] *)
+| XListComp (elt : expr) (x : string) (iter : expr) (cond : option expr)   (* [elt for x in iter if cond] *)
 | XList (es : list expr)
 | XBoolOp (is_and : bool) (es : list expr).                     (* a and b and ..  /  a or b or .. (operand values) *)
 
@@ -61,11 +64,14 @@ Inductive stmt :=
 | SAug (t : target) (op : bop) (e : expr)
 | SIf (c : expr) (a b : list stmt)
 | SFor (x : string) (it : expr) (body : list stmt)
+| SForUnpack (xs : list string) (it : expr) (body : list stmt) (* for a, b in it *)
+| SUnpack (ts : list target) (e : expr)                        (* a, b = e *)
+| SYield (e : expr)                                            (* generator functions: the items are collected *)
 | SReturn (e : option expr)
 | SExpr (e : expr)
 | SPass.
 
-Record fdef := { f_params : list string; f_body : list stmt }.
+Record fdef := { f_params : list string; f_body : list stmt; f_gen : bool (* contains yield: a generator function *) }.
 
 (* ------------------------------------------------------------------ results *)
 Inductive res (A : Type) :=
@@ -117,11 +123,31 @@ Definition pv_truthy (v : pv) : res bool :=
 
 Definition pv_is_none (v : pv) : bool := match v with PV VNull => true | _ => false end.
 
+(* Python == on the modelled values (scalars: Base/PyValue's val_eq between values of one kind) *)
+Fixpoint pv_eqb (a b : pv) {struct a} : bool :=
+  match a, b with
+  | PV x, PV y =>
+      if is_null x || is_null y then is_null x && is_null y
+      else if rank x =? rank y then val_eq x y else false
+  | PList l, PList m | PTuple l, PTuple m =>
+      (fix go (l m : list pv) {struct l} : bool :=
+         match l, m with
+         | [], [] => true
+         | x :: l', y :: m' => pv_eqb x y && go l' m'
+         | _, _ => false
+         end) l m
+  | PRef i, PRef j => Nat.eqb i j
+  | PSelf, PSelf => true
+  | _, _ => false
+  end.
+
 (* comparisons between scalars are Base/PyValue's (the executor model's); `is` is only modelled against None *)
 Definition compare1 (op : cmpop) (a b : pv) : res bool :=
   match op with
   | CIs => if pv_is_none b then Ok (pv_is_none a) else if pv_is_none a then Ok false else Stuck
   | CIsNot => if pv_is_none b then Ok (negb (pv_is_none a)) else if pv_is_none a then Ok true else Stuck
+  | CIn => match b with PList l | PTuple l => Ok (existsb (pv_eqb a) l) | _ => Stuck end
+  | CNotIn => match b with PList l | PTuple l => Ok (negb (existsb (pv_eqb a) l)) | _ => Stuck end
   | _ =>
       match a, b with
       | PV x, PV y =>
@@ -170,9 +196,41 @@ Definition pop_at (l : list pv) (i : Z) : res (pv * list pv) :=
        | None => Stuck
        end.
 
+Definition index_at (l : list pv) (i : Z) : res pv :=
+  let len := Z.of_nat (length l) in
+  let j := if i <? 0 then i + len else i in
+  if (j <? 0) || (len <=? j) then Exc IndexError
+  else match nth_error l (Z.to_nat j) with Some x => Ok x | None => Stuck end.
+
+(* reserved local in which a generator function collects what it yields *)
+Definition yield_var : string := "$yield".
+
 Section Interp.
 (* calling opaque callable n on argument values; pure *)
 Variable call_ref : nat -> list pv -> pv.
+(* library functions by qualified name (itertools.groupby, sorted, ...), and methods other than the built-in list
+   methods below as "method:<name>" applied to (receiver :: arguments), returning PTuple [receiver'; result] *)
+Variable prim : string -> list pv -> res pv.
+
+(* receiver.m(args): new receiver and result *)
+Definition method_call (m : string) (recv : pv) (args : list pv) : res (pv * pv) :=
+  match recv, args with
+  | PList l, [v] =>
+      if String.eqb m "append" then Ok (PList (l ++ [v]), PNone)
+      else if String.eqb m "add" then Ok (PList (if existsb (pv_eqb v) l then l else l ++ [v]), PNone)
+      else if String.eqb m "extend" then
+        match v with PList x | PTuple x => Ok (PList (l ++ x), PNone) | _ => Stuck end
+      else if String.eqb m "pop" then
+        match v with
+        | PV (VInt z) => do (x, l') <- pop_at l z; Ok (PList l', x)
+        | _ => Stuck
+        end
+      else do r <- prim ("method:" ++ m) (recv :: args);
+           match r with PTuple [recv'; x] => Ok (recv', x) | _ => Stuck end
+  | _, _ =>
+      do r <- prim ("method:" ++ m) (recv :: args);
+      match r with PTuple [recv'; x] => Ok (recv', x) | _ => Stuck end
+  end.
 
 Definition do_call (f : pv) (args : list pv) : res pv :=
   match f with
@@ -214,11 +272,33 @@ Fixpoint eval (s : st) (e : expr) {struct e} : res (st * pv) :=
       | PV _ => Exc TypeError
       | _ => Stuck
       end
-  | XPop t i =>
-      do (s1, iv) <- eval s i;
-      do lv <- read s1 t;
-      match lv, iv with
-      | PList l, PV (VInt z) => do (x, l') <- pop_at l z; Ok (write s1 t (PList l'), x)
+  | XMethod t m args =>
+      do (s1, vs) <- (fix go (s : st) (l : list expr) : res (st * list pv) :=
+                         match l with
+                         | [] => Ok (s, [])
+                         | a :: t => do (s1, v) <- eval s a; do (s2, vs) <- go s1 t; Ok (s2, v :: vs)
+                         end) s args;
+      do recv <- read s1 t;
+      do (recv', x) <- method_call m recv vs;
+      Ok (write s1 t recv', x)
+  | XPrim name args =>
+      do (s1, vs) <- (fix go (s : st) (l : list expr) : res (st * list pv) :=
+                         match l with
+                         | [] => Ok (s, [])
+                         | a :: t => do (s1, v) <- eval s a; do (s2, vs) <- go s1 t; Ok (s2, v :: vs)
+                         end) s args;
+      do r <- prim name vs; Ok (s1, r)
+  | XTuple es =>
+      do (s1, vs) <- (fix go (s : st) (l : list expr) : res (st * list pv) :=
+                         match l with
+                         | [] => Ok (s, [])
+                         | a :: t => do (s1, v) <- eval s a; do (s2, vs) <- go s1 t; Ok (s2, v :: vs)
+                         end) s es;
+      Ok (s1, PTuple vs)
+  | XIndex a i =>
+      do (s1, v) <- eval s a; do (s2, iv) <- eval s1 i;
+      match v, iv with
+      | PList l, PV (VInt z) | PTuple l, PV (VInt z) => do x <- index_at l z; Ok (s2, x)
       | _, _ => Stuck
       end
   | XCompare a rest =>
@@ -247,7 +327,7 @@ Fixpoint eval (s : st) (e : expr) {struct e} : res (st * pv) :=
       | PTuple l => Ok (s3, PTuple (slice_list l l' h'))
       | _ => Stuck
       end
-  | XListComp elt x it =>
+  | XListComp elt x it cond =>
       do (s1, iv) <- eval s it;
       match iv with
       | PList l | PTuple l =>
@@ -256,8 +336,13 @@ Fixpoint eval (s : st) (e : expr) {struct e} : res (st * pv) :=
                       match l with
                       | [] => Ok []
                       | v :: t =>
-                          do (_, r) <- eval (write s1 (TName x) v) elt;
-                          do rs <- go t; Ok (r :: rs)
+                          let sx := write s1 (TName x) v in
+                          do keep <- match cond with
+                                     | None => Ok true
+                                     | Some c => do (_, cv) <- eval sx c; pv_truthy cv
+                                     end;
+                          if keep then do (_, r) <- eval sx elt; do rs <- go t; Ok (r :: rs)
+                          else go t
                       end) l;
           Ok (s1, PList vs)
       | _ => Stuck
@@ -283,6 +368,18 @@ Fixpoint eval (s : st) (e : expr) {struct e} : res (st * pv) :=
 (* statement outcome: fall through with a new state, or return a value *)
 Inductive outcome := Next (s : st) | Ret (s : st) (v : pv).
 
+Definition unpack_names (s : st) (xs : list string) (v : pv) : res st :=
+  match v with
+  | PTuple l | PList l =>
+      (fix go (s : st) (xs : list string) (l : list pv) : res st :=
+         match xs, l with
+         | [], [] => Ok s
+         | x :: xs', a :: l' => go (write s (TName x) a) xs' l'
+         | _, _ => Exc TypeError
+         end) s xs l
+  | _ => Stuck
+  end.
+
 Fixpoint exec (s : st) (c : stmt) {struct c} : res outcome :=
   let block := fix block (s : st) (l : list stmt) : res outcome :=
                  match l with
@@ -306,6 +403,39 @@ Fixpoint exec (s : st) (c : stmt) {struct c} : res outcome :=
                  do o <- block (write s (TName x) v) body;
                  match o with Next s1 => loop s1 t | Ret _ _ => Ok o end
              end) s1 l
+      | _ => Stuck
+      end
+  | SForUnpack xs it body =>
+      do (s1, iv) <- eval s it;
+      match iv with
+      | PList l | PTuple l =>
+          (fix loop (s : st) (l : list pv) : res outcome :=
+             match l with
+             | [] => Ok (Next s)
+             | v :: t =>
+                 do sv <- unpack_names s xs v;
+                 do o <- block sv body;
+                 match o with Next s1 => loop s1 t | Ret _ _ => Ok o end
+             end) s1 l
+      | _ => Stuck
+      end
+  | SUnpack ts e =>
+      do (s1, v) <- eval s e;
+      match v with
+      | PTuple l | PList l =>
+          (fix go (s : st) (ts : list target) (l : list pv) : res outcome :=
+             match ts, l with
+             | [], [] => Ok (Next s)
+             | t :: ts', x :: l' => go (write s t x) ts' l'
+             | _, _ => Exc TypeError            (* ValueError: wrong number of values to unpack *)
+             end) s1 ts l
+      | _ => Stuck
+      end
+  | SYield e =>
+      do (s1, v) <- eval s e;
+      match lookup yield_var (locals s1) with
+      | Some (PList acc) => Ok (Next (write s1 (TName yield_var) (PList (acc ++ [v]))))
+      | None => Ok (Next (write s1 (TName yield_var) (PList [v])))
       | _ => Stuck
       end
   | SReturn None => Ok (Ret s PNone)
@@ -334,10 +464,11 @@ Definition call_method (f : fdef) (flds : env) (args : list pv) : res (env * pv)
   | None => Exc TypeError
   | Some loc =>
       do o <- exec_block {| locals := loc; fields := flds |} (f_body f);
-      match o with
-      | Next s => Ok (fields s, PNone)
-      | Ret s v => Ok (fields s, v)
-      end
+      let s' := match o with Next s => s | Ret s _ => s end in
+      if f_gen f then
+        (* a generator function returns the items it yielded; the value of a return statement is lost *)
+        Ok (fields s', match lookup yield_var (locals s') with Some y => y | None => PList [] end)
+      else match o with Next s => Ok (fields s, PNone) | Ret s v => Ok (fields s, v) end
   end.
 
 End Interp.
